@@ -34,6 +34,9 @@ class T:
   def __eq__(self, o):
     return isinstance(o, T) and (self.tag, self.args) == (o.tag, o.args)
 
+  def __hash__(self):          # usable as a dictionary key (a reference or macro in key position)
+    return hash((self.tag, repr(self.args)))
+
   def __repr__(self):
     return 'T(%r%s)' % (self.tag, ''.join(', %r' % (a,) for a in self.args))
 
